@@ -1,5 +1,8 @@
 import Comdex.Lemmas.LendLtv
 import Comdex.Lemmas.LendAccrual
+import Comdex.Lemmas.LendIds
+import Comdex.Lemmas.LendReserve
+import Comdex.Lemmas.LendMigrate
 /-!
 # C08 — Lending books balance and borrowing is bounded by loan-to-value
 
@@ -40,6 +43,20 @@ interest / reward amounts)
   `C08.guards_reject_new_positions`, `C08.guards_reject_borrow`, `C08.depreciation_rejects`, `C08.rejected_no_change`.
 * "withdrawing or closing a lend position never releases collateral pledged to an open borrow"
     → `C08.withdraw_never_releases_pledged`, `C08.closeLend_never_releases_pledged`.
+* (depth 2) "… collateral … that has NOT been handed over" over histories that go on after the hand-over — partial fills and the closing bid of the
+  second-generation auction (`bid`, `auctionClose`: x/auctionsV2 bid.go lend branch + `MsgCloseDutchAuctionForBorrow`), where the liquidated borrow
+  disappears and the lend position stays debited → the three identities above now range over such histories (`totalLend_eq`, `totalLend_eq_partial`,
+  `totalBorrowed_eq`, `totalStable_eq` — the op type has the new ops), `C08.auctionClose_books`, `C08.auctionBid_books`; the close of a cross-pool borrow
+  whose lend position was deleted at the hand-over can never succeed: `C08.auctionClose_needs_lend`, `C08.auctionClose_stuck_counterexample`.
+  (A borrow that comes BACK exists only in the first generation — `CreteNewBorrow` — which is not modelled.)
+* (depth 2) the state anchor `PoolAssetLBMapping.{LendIds, BorrowIds}`: every live lend / borrow is in exactly the list of its (pool, asset) / (out pool,
+  out asset), no dangling id, lists ascending so that the binary-search removal is exact → `C08.ids_consistent`, `C08.id_lists_ascending`,
+  `C08.delId_binary_search`, `C08.delId_needs_ascending`, `C08.lend_listed_exactly`, `C08.borrow_listed_exactly`, `C08.no_dangling_ids`.
+* (depth 2) reserve book-keeping records vs the reserve module balance → `C08.reserve_ledger` (all histories without block-hook runs),
+  `C08.reserve_halves_step`, `C08.reserve_halves_drift_counterexample`; the x/lend block hook breaks the ledger and kills itself:
+  `C08.reserve_ledger_poolsweep_counterexample`, `C08.beginBlock_dead_after_deletion`, `C08.beginBlock_keeps_pending` (finding D35).
+* (depth 2) the store migration 2 → 3 run in the middle of a history keeps all of the above → `C08.books_across_migration`,
+  `C08.reserve_ledger_across_migration`, `C08.migration_switches_off`; it leaks flags between records: `C08.migration_leak_counterexample` (finding D36).
 -/
 namespace Comdex.C08
 open Comdex Comdex.Lend
@@ -291,7 +308,7 @@ theorem borrow_respects_ltv_pledged {cfg : Cfg} {s s' : State} {u k pid : Nat} {
 /-- assets 1 (X, price 2), 2 (Y, price 1), 3 (Z, price 1), cTokens 4, 5, 6; one pool holding all three; pair 1 = (Y → Z). -/
 def cfgF : Cfg :=
   { assets := [⟨1, 1⟩, ⟨2, 1⟩, ⟨3, 1⟩, ⟨4, 1⟩, ⟨5, 1⟩, ⟨6, 1⟩],
-    rates := [⟨1, 700000000000000000, 0, 4, false, false⟩, ⟨2, 500000000000000000, 0, 5, false, false⟩, ⟨3, 800000000000000000, 0, 6, false, false⟩],
+    rates := [⟨1, 700000000000000000, 0, 4, false, false, 0, 0⟩, ⟨2, 500000000000000000, 0, 5, false, false, 0, 0⟩, ⟨3, 800000000000000000, 0, 6, false, false, 0, 0⟩],
     pools := [⟨1, 101, [⟨1, 3, 1000000000000000000000000000000000000⟩, ⟨2, 1, 1000000000000000000000000000000000000⟩, ⟨3, 2, 1000000000000000000000000000000000000⟩]⟩],
     pairs := [⟨1, 2, 3, false, 1, false⟩],
     a2p := [⟨2, 1, [1]⟩],
@@ -337,7 +354,8 @@ theorem draw_requires_pool_funds {cfg : Cfg} {s s' : State} {u k d : Nat} {y : I
 changes. (`l` is the position after the reward accrual the message itself performs.) -/
 theorem closeLend_never_releases_pledged {cfg : Cfg} {s s' : State} {u k : Nat} {r : Int} (h : closeLend cfg s u k r = .ok s') :
     s'.borrows = s.borrows ∧ (∀ b ∈ s.borrows, b.lendingId ≠ k) ∧ getLend s'.lends k = none ∧
-      ∃ s1 l, iterLends cfg s k r = .ok s1 ∧ getLend s1.lends k = some l ∧ s'.stats = addTotalLend s1.stats l.pool l.asset (-l.avail) := by
+      ∃ s1 l, iterLends cfg s k r = .ok s1 ∧ getLend s1.lends k = some l ∧
+        s'.stats = delLendId (addTotalLend s1.stats l.pool l.asset (-l.avail)) l.pool l.asset k := by
   unfold closeLend at h
   invert h
   have hb := iterLends_borrows ‹iterLends cfg s k r = .ok _›
@@ -374,7 +392,7 @@ theorem withdraw_never_releases_pledged {cfg : Cfg} {s s' : State} {u k d : Nat}
 /-- assets 1 (A), 2 (B), both price 1; cTokens 3, 4; one pool; pair 1 = (A → B). -/
 def cfgH : Cfg :=
   { assets := [⟨1, 1⟩, ⟨2, 1⟩, ⟨3, 1⟩, ⟨4, 1⟩],
-    rates := [⟨1, 500000000000000000, 0, 3, false, false⟩, ⟨2, 500000000000000000, 0, 4, false, false⟩],
+    rates := [⟨1, 500000000000000000, 0, 3, false, false, 0, 0⟩, ⟨2, 500000000000000000, 0, 4, false, false, 0, 0⟩],
     pools := [⟨1, 101, [⟨1, 1, 1000000000000000000000000000000000000⟩, ⟨2, 2, 1000000000000000000000000000000000000⟩]⟩],
     pairs := [⟨1, 1, 2, false, 1, false⟩],
     a2p := [⟨1, 1, [1]⟩],
@@ -419,7 +437,7 @@ def stateE : State := run cfgH (init cfgH bankH pricesH) [.lend 1 1 1 100 1 1 0,
 
 /-- `borrow_respects_ltv`, `borrow_requires_pool_funds`, `borrow_respects_ltv_pledged`: an accepted new borrow on a regular pair -/
 example : (borrowNew cfgH (run cfgH (init cfgH bankH pricesH) [.lend 1 1 1 100 1 1 0]) 1 ⟨1, 1, 1, 1, 100, 100, 1⟩ ⟨1, 1, 2, false, 1, false⟩
-    ⟨1, 500000000000000000, 0, 3, false, false⟩ false 3 60 2 10).toBool = true ∧ (⟨1, 1, 2, false, 1, false⟩ : PairCfg).assetIn = (⟨1, 1, 1, 1, 100, 100, 1⟩ : Lend).asset := by
+    ⟨1, 500000000000000000, 0, 3, false, false, 0, 0⟩ false 3 60 2 10).toBool = true ∧ (⟨1, 1, 2, false, 1, false⟩ : PairCfg).assetIn = (⟨1, 1, 1, 1, 100, 100, 1⟩ : Lend).asset := by
   decide
 
 /-- `draw_respects_ltv`, `draw_requires_pool_funds`: an accepted draw with accrued interest (external increments 2.5 and 0.5) -/
@@ -496,9 +514,9 @@ go to the reserve, the whole tokens of the rest are minted as cTokens and booked
 at most one token of dust stays in the pool: `⌊interest⌋ = ⌊reserve⌋ + ⌊interest − reserve⌋ + dust`, `dust ∈ {0, 1}`. -/
 theorem closeBorrow_split {cfg : Cfg} {s s' : State} {u k : Nat} {ext : ExtB} (h : closeBorrow cfg s u k ext = .ok s') :
     ∃ s1 b pair, iterBorrow s k ext = .ok s1 ∧ getBorrow s1.borrows k = some b ∧ cfg.pair? b.pairId = some pair ∧
-      s'.stats = addBorrowed (if Dec.truncateInt (b.interest - b.reserveInt) > 0
+      s'.stats = delBorrowId (addBorrowed (if Dec.truncateInt (b.interest - b.reserveInt) > 0
                               then addTotalInterest s1.stats pair.outPool pair.assetOut (Dec.truncateInt (b.interest - b.reserveInt))
-                              else s1.stats) pair.outPool pair.assetOut b.stable (-b.amountOut) ∧
+                              else s1.stats) pair.outPool pair.assetOut b.stable (-b.amountOut)) pair.outPool pair.assetOut k ∧
       (0 ≤ b.reserveInt → b.reserveInt ≤ b.interest → ∃ dust, 0 ≤ dust ∧ dust ≤ 1 ∧
         Dec.truncateInt b.interest = Dec.truncateInt b.reserveInt + Dec.truncateInt (b.interest - b.reserveInt) + dust) := by
   unfold closeBorrow at h
@@ -706,6 +724,431 @@ example :
       = .val 50000000000000000000 10000000000000000000 ∧
     (accrueLend ⟨1, Dec.one, 1700000000, 700000000000000000⟩ 6 100000000000000000 (1700000000 + 31557600)).reward = 1 ∧
     (accrueLend ⟨1, Dec.one, 1700000000, 700000000000000000⟩ 6 100000000000000000 (1700000000 + 31557600)).tracker = 300000000000000000 := by
+  decide
+
+/-! ## The id lists of the pool-asset records (`LendIds`, `BorrowIds`) — what the liquidation sweeps and the interest queries iterate -/
+
+theorem init_ids (cfg : Cfg) (bank : Bank) (prices : List (Nat × Nat)) : IdsS cfg (init cfg bank prices) := by
+  refine { la := List.Pairwise.nil, ba := List.Pairwise.nil, ok := ?_, lr := (fun l hl => nomatch hl), br := (fun b hb => nomatch hb) }
+  intro st hst
+  have hst' : st ∈ initStats cfg := hst
+  unfold initStats at hst'
+  obtain ⟨p, _, hp⟩ := List.mem_flatMap.mp hst'
+  obtain ⟨d, _, rfl⟩ := List.mem_map.mp hp
+  exact ⟨rfl, rfl⟩
+
+theorem apply_ids {cfg : Cfg} {s : State} (op : Op) (c : CoreS cfg s) (i : IdsS cfg s) : IdsS cfg (apply cfg s op) := by
+  unfold apply
+  split
+  · exact step_ids (by assumption) c i
+  · exact i
+
+theorem run_ids {cfg : Cfg} (ops : List Op) {s : State} (c : CoreS cfg s) (i : IdsS cfg s) : IdsS cfg (run cfg s ops) := by
+  induction ops generalizing s with
+  | nil => exact i
+  | cons op ops ih => exact ih (apply_core op c) (apply_ids op c i)
+
+/-- **Id lists are exact** — for every configuration, genesis and history (user messages, hand-overs, bids, auction closes): every
+pool-asset record lists exactly the ids of the lend positions of its pool and asset, and exactly the ids of the borrows whose pair
+lends out its asset from its pool (handed-over borrows included until the auction close deletes them), in creation order. -/
+theorem ids_consistent (cfg : Cfg) (bank : Bank) (prices : List (Nat × Nat)) (ops : List Op) :
+    IdsOk cfg (run cfg (init cfg bank prices) ops) :=
+  (run_ids ops (init_core cfg bank prices) (init_ids cfg bank prices)).ok
+
+/-- **Id lists ascend** — which is what the binary search of `DeleteIDFromAssetStatsMapping` relies on (`delId_binary_search`). -/
+theorem id_lists_ascending (cfg : Cfg) (bank : Bank) (prices : List (Nat × Nat)) (ops : List Op) :
+    ∀ st ∈ (run cfg (init cfg bank prices) ops).stats, Asc st.lendIds ∧ Asc st.borrowIds := by
+  intro st hst
+  have i := run_ids ops (init_core cfg bank prices) (init_ids cfg bank prices)
+  obtain ⟨h1, h2⟩ := i.ok st hst
+  rw [h1, h2]
+  exact ⟨asc_lendIdsOf i.la _ _, asc_borrowIdsOf i.ba _ _⟩
+
+/-- **Removal by binary search is removal** on an ascending list; on an unsorted one it can miss the id (`[5, 3]`, id `3`). -/
+theorem delId_binary_search (ids : List Nat) (h : Asc ids) (k : Nat) : delId ids k = ids.filter (· != k) := delId_eq_filter ids h k
+theorem delId_needs_ascending : delId [5, 3] 3 = [5, 3] := delId_unsorted_misses
+
+/-- **Every live lend position is in exactly the list of its pool and asset**: the record exists, lists the id, and any record that
+lists the id is one of that pool and asset. -/
+theorem lend_listed_exactly (cfg : Cfg) (bank : Bank) (prices : List (Nat × Nat)) (ops : List Op) (l : Lend)
+    (hl : l ∈ (run cfg (init cfg bank prices) ops).lends) :
+    (∃ st ∈ (run cfg (init cfg bank prices) ops).stats, st.pool = l.pool ∧ st.asset = l.asset ∧ l.id ∈ st.lendIds) ∧
+    (∀ st ∈ (run cfg (init cfg bank prices) ops).stats, l.id ∈ st.lendIds → st.pool = l.pool ∧ st.asset = l.asset) := by
+  have i := run_ids ops (init_core cfg bank prices) (init_ids cfg bank prices)
+  have hu : Uniq lid (run cfg (init cfg bank prices) ops).lends := asc_uniq (fun l : Lend => l.id) i.la
+  constructor
+  · obtain ⟨st, hst, h1, h2⟩ := i.lr l hl
+    refine ⟨st, hst, h1, h2, ?_⟩
+    rw [(i.ok st hst).1, h1, h2]
+    unfold lendIdsOf
+    exact List.mem_map.mpr ⟨l, List.mem_filter.mpr ⟨hl, by simp⟩, rfl⟩
+  · intro st hst hk
+    rw [(i.ok st hst).1] at hk
+    obtain ⟨x, hx, hxid, hxp, hxa⟩ := mem_lendIdsOf hk
+    have : x = l := uniq_eq lid hu hx hl (by simp [lid, hxid])
+    subst this
+    exact ⟨hxp.symm, hxa.symm⟩
+
+/-- **Every live borrow is in exactly the list of its pair's out pool and asset** (so `GetBorrows`, the list the liquidation sweeps of
+both generations walk, reaches it). -/
+theorem borrow_listed_exactly (cfg : Cfg) (bank : Bank) (prices : List (Nat × Nat)) (ops : List Op) (b : Borrow)
+    (hb : b ∈ (run cfg (init cfg bank prices) ops).borrows) :
+    (∃ st ∈ (run cfg (init cfg bank prices) ops).stats, cfg.pairOut b.pairId = some (st.pool, st.asset) ∧ b.id ∈ st.borrowIds) ∧
+    (∀ st ∈ (run cfg (init cfg bank prices) ops).stats, b.id ∈ st.borrowIds → cfg.pairOut b.pairId = some (st.pool, st.asset)) := by
+  have i := run_ids ops (init_core cfg bank prices) (init_ids cfg bank prices)
+  have hu : Uniq bid (run cfg (init cfg bank prices) ops).borrows := asc_uniq (fun b : Borrow => b.id) i.ba
+  constructor
+  · obtain ⟨p, a, hpa, st, hst, h1, h2⟩ := i.br b hb
+    refine ⟨st, hst, by rw [hpa, h1, h2], ?_⟩
+    rw [(i.ok st hst).2, h1, h2]
+    unfold borrowIdsOf
+    exact List.mem_map.mpr ⟨b, List.mem_filter.mpr ⟨hb, by simp [hpa]⟩, rfl⟩
+  · intro st hst hk
+    rw [(i.ok st hst).2] at hk
+    obtain ⟨x, hx, hxid, hxp⟩ := mem_borrowIdsOf hk
+    have : x = b := uniq_eq bid hu hx hb (by simp [bid, hxid])
+    subst this
+    exact hxp
+
+/-- **No dangling id**: an id in a list is the id of a live position of that record's pool and asset / out pool and asset. -/
+theorem no_dangling_ids (cfg : Cfg) (bank : Bank) (prices : List (Nat × Nat)) (ops : List Op) :
+    ∀ st ∈ (run cfg (init cfg bank prices) ops).stats,
+      (∀ k ∈ st.lendIds, ∃ l ∈ (run cfg (init cfg bank prices) ops).lends, l.id = k ∧ l.pool = st.pool ∧ l.asset = st.asset) ∧
+      (∀ k ∈ st.borrowIds, ∃ b ∈ (run cfg (init cfg bank prices) ops).borrows, b.id = k ∧ cfg.pairOut b.pairId = some (st.pool, st.asset)) := by
+  intro st hst
+  have i := run_ids ops (init_core cfg bank prices) (init_ids cfg bank prices)
+  obtain ⟨h1, h2⟩ := i.ok st hst
+  exact ⟨fun k hk => mem_lendIdsOf (by rw [← h1]; exact hk), fun k hk => mem_borrowIdsOf (by rw [← h2]; exact hk)⟩
+
+/-! ## Life after the hand-over: bids and the close of the second-generation auction -/
+
+/-- the principal totals and the lent total of a record are those of the record with the same key before -/
+def SameTotals (ss ss' : List Stats) : Prop :=
+  ∀ st' ∈ ss', ∃ st ∈ ss, st.pool = st'.pool ∧ st.asset = st'.asset ∧ st.totalLend = st'.totalLend ∧
+    st.totalBorrowed = st'.totalBorrowed ∧ st.totalStable = st'.totalStable
+
+theorem sameTotals_mod (ss : List Stats) (p a : Nat) (f : Stats → Stats) (hf : IdsOnly f) : SameTotals ss (modStats ss p a f) := by
+  intro st' hst'
+  obtain ⟨s0, hs0, rfl⟩ := mem_modStats hst'
+  refine ⟨s0, hs0, ?_⟩
+  by_cases hc : s0.pool = p ∧ s0.asset = a
+  · rw [if_pos hc]; obtain ⟨h1, h2, h3, h4, h5⟩ := hf s0; exact ⟨h1.symm, h2.symm, h3.symm, h4.symm, h5.symm⟩
+  · rw [if_neg hc]; exact ⟨rfl, rfl, rfl, rfl, rfl⟩
+
+theorem SameTotals.trans {a b c : List Stats} (h1 : SameTotals a b) (h2 : SameTotals b c) : SameTotals a c := by
+  intro st hst
+  obtain ⟨s1, hs1, e1, e2, e3, e4, e5⟩ := h2 st hst
+  obtain ⟨s0, hs0, f1, f2, f3, f4, f5⟩ := h1 s1 hs1
+  exact ⟨s0, hs0, by omega, by omega, by omega, by omega, by omega⟩
+
+theorem SameTotals.refl (a : List Stats) : SameTotals a a := fun st hst => ⟨st, hst, rfl, rfl, rfl, rfl, rfl⟩
+
+theorem sameTotals_addTotalInterest (ss : List Stats) (p a : Nat) (d : Int) : SameTotals ss (addTotalInterest ss p a d) :=
+  sameTotals_mod ss p a _ (fun _ => ⟨rfl, rfl, rfl, rfl, rfl⟩)
+theorem sameTotals_delBorrowId (ss : List Stats) (p a k : Nat) : SameTotals ss (delBorrowId ss p a k) :=
+  sameTotals_mod ss p a _ (idsOnly_delBorrow k)
+
+/-- what an accepted closing bid does to the books (see `auctionClose_books`) -/
+def CloseBooks (cfg : Cfg) (s s' : State) (k : Nat) : Prop :=
+  ∃ b pair, getBorrow s.borrows k = some b ∧ b.liq = true ∧ cfg.pair? b.pairId = some pair ∧
+    s'.borrows = delBorrow s.borrows k ∧ getBorrow s'.borrows k = none ∧ getLocked s'.locked k = none ∧
+    s'.lends = s.lends ∧ s'.lendCtr = s.lendCtr ∧ s'.borrowCtr = s.borrowCtr ∧ SameTotals s.stats s'.stats ∧
+    s'.stats = delBorrowId (if Dec.truncateInt (b.interest - b.reserveInt) > 0
+                            then addTotalInterest s.stats pair.outPool pair.assetOut (Dec.truncateInt (b.interest - b.reserveInt))
+                            else s.stats) pair.outPool pair.assetOut k
+
+/-- **The auction close on the books**: an accepted closing bid deletes the handed-over borrow and its locked vault; no lend position
+changes (the position was debited at the hand-over and stays debited); no published principal or lent total changes (they were
+reduced at the hand-over); the lenders' share of the accrued interest, `⌊interest − reserve share⌋`, is added to
+`totalInterestAccumulated` of the debt pool's record. A partial fill changes nothing but balances (`auctionBid_books`). -/
+theorem auctionClose_books {cfg : Cfg} {s s' : State} {u k : Nat} {paid recv left topUp : Int}
+    (h : auctionClose cfg s u k paid recv left topUp = .ok s') : CloseBooks cfg s s' k := by
+  unfold auctionClose at h
+  invert h
+  all_goals
+    unfold CloseBooks
+    refine ⟨_, _, ‹getBorrow s.borrows k = some _›, ‹Borrow.liq _ = true›, ‹cfg.pair? _ = some _›, rfl, find_del bid _ k, ?_, rfl, rfl, rfl, ?_, ?_⟩
+    · unfold getLocked delLocked
+      apply List.find?_eq_none.mpr
+      intro x hx
+      have := (List.mem_filter.mp hx).2
+      simpa using this
+    · first
+      | exact (sameTotals_addTotalInterest _ _ _ _).trans (sameTotals_delBorrowId _ _ _ _)
+      | exact sameTotals_delBorrowId _ _ _ _
+    · simp [*]
+
+theorem auctionBid_books {cfg : Cfg} {s s' : State} {u k : Nat} {paid recv : Int} (h : auctionBid cfg s u k paid recv = .ok s') :
+    s'.lends = s.lends ∧ s'.borrows = s.borrows ∧ s'.stats = s.stats ∧ s'.resv = s.resv ∧ s'.locked = s.locked := by
+  unfold auctionBid at h
+  simp only [bind, Except.bind, pure, Except.pure] at h
+  repeat' (split at h <;> try cases h)
+  all_goals exact ⟨rfl, rfl, rfl, rfl, rfl⟩
+
+/-- **The close needs the lend position of a cross-pool borrow**: `MsgCloseDutchAuctionForBorrow` reads the collateral's pool from the
+lend position to send the bridged transit asset back; when the hand-over deleted that position (`UpdateLockedBorrows` deletes it as
+soon as `AmountIn − pledge ≤ 0`) no closing bid can ever succeed, whatever the amounts and whoever bids. -/
+theorem auctionClose_needs_lend {cfg : Cfg} {s : State} {k : Nat} {b : Borrow} (hb : getBorrow s.borrows k = some b) (hbr : b.bridged > 0)
+    (hl : getLend s.lends b.lendingId = none) (u : Nat) (paid recv left topUp : Int) :
+    (auctionClose cfg s u k paid recv left topUp).toBool = false := by
+  cases h : auctionClose cfg s u k paid recv left topUp with
+  | error e => rfl
+  | ok s' =>
+    exfalso
+    unfold auctionClose at h
+    invert h
+    all_goals
+      have e := ‹getBorrow s.borrows k = some _›
+      rw [hb] at e; cases e
+      first
+      | (have e2 := ‹getLend s.lends _ = some _›; rw [hl] at e2; cases e2)
+      | exact absurd hbr ‹¬ _›
+
+/-- cross-pool world: assets A = 1, B = 2, T = 3 (cTokens 4, 5, 6); pool 1 {A (second transit asset), T (first transit asset)}, pool 2 {B, T, A};
+pair 1 = (A → B of pool 2), cross-pool; liquidation penalty 5 % -/
+def cfgX : Cfg :=
+  { assets := [⟨1, 1⟩, ⟨2, 1⟩, ⟨3, 1⟩, ⟨4, 1⟩, ⟨5, 1⟩, ⟨6, 1⟩],
+    rates := [⟨1, 500000000000000000, 0, 4, false, false, 50000000000000000, 0⟩, ⟨2, 500000000000000000, 0, 5, false, false, 50000000000000000, 0⟩,
+              ⟨3, 800000000000000000, 0, 6, false, false, 50000000000000000, 0⟩],
+    pools := [⟨1, 101, [⟨1, 3, 1000000000000000000000000000000000000⟩, ⟨3, 2, 1000000000000000000000000000000000000⟩]⟩,
+              ⟨2, 102, [⟨2, 1, 1000000000000000000000000000000000000⟩, ⟨3, 2, 1000000000000000000000000000000000000⟩, ⟨1, 3, 1000000000000000000000000000000000000⟩]⟩],
+    pairs := [⟨1, 1, 2, true, 2, false⟩],
+    a2p := [⟨1, 1, [1]⟩],
+    apps := [(1, true)] }
+def bankX : Bank := [((1, 1), 1000), ((101, 3), 1000), ((102, 2), 1000), ((7, 2), 1000)]
+def pricesX : List (Nat × Nat) := [(1, 1000000), (2, 1000000), (3, 1000000)]
+/-- user 1 lends 100 A and pledges ALL of it for a cross-pool loan of 30 B (50 T are bridged to pool 2); the borrow is handed over: the
+lend position is deleted (`AmountIn − pledge = 0`) -/
+def opsX : List Op := [.lend 1 1 1 100 1 1 0, .borrow 1 1 1 false 4 100 2 30 .err .err, .handover 1 0]
+
+/-- **Witness (stuck auction)**: every step is accepted; afterwards the borrow is under liquidation with 50 T bridged and its lend
+position is gone — by `auctionClose_needs_lend` no bid can close the auction (here: the bid that pays the whole target is refused),
+the collateral stays in the auction module and the 50 T stay in pool 2. -/
+theorem auctionClose_stuck_counterexample :
+    allAccepted cfgX (init cfgX bankX pricesX) opsX = true ∧
+    (run cfgX (init cfgX bankX pricesX) opsX).lends = [] ∧
+    ((run cfgX (init cfgX bankX pricesX) opsX).borrows.map fun b => (b.id, b.liq, b.bridged)) = [(1, true, 50)] ∧
+    ((run cfgX (init cfgX bankX pricesX) opsX).locked.map fun k => (k.borrowId, k.target)) = [(1, 31)] ∧
+    (step cfgX (run cfgX (init cfgX bankX pricesX) opsX) (.auctionClose 7 1 31 100 0 0)).toBool = false := by decide
+
+/-- `cfgH` with a liquidation penalty of 10 % on both assets -/
+def cfgP : Cfg := { cfgH with rates := [⟨1, 500000000000000000, 0, 3, false, false, 100000000000000000, 0⟩,
+                                        ⟨2, 500000000000000000, 0, 4, false, false, 100000000000000000, 0⟩] }
+def bankP : Bank := [((1, 1), 1000), ((101, 2), 1000), ((99, 1), 10), ((7, 2), 100)]
+/-- lend 100 A; borrow 10 B against 60 cA; 2.5 B of interest accrue, 1.5 of it the reserve's; hand-over (target 10 + 1 penalty); a
+partial fill by account 7 (4 B for 20 A); its closing bid (7 B for 30 A, 10 A back to the owner) -/
+def opsC : List Op :=
+  [.lend 1 1 1 100 1 1 0, .borrow 1 1 1 false 3 60 2 10 .err .err, .calcAll 1 [(1, .val 2500000000000000000 1500000000000000000)] [(1, 0)],
+   .handover 1 2500000000000000000, .bid 7 1 4 20, .auctionClose 7 1 7 30 10 0]
+
+/-- non-vacuity (`auctionClose_books`, `auctionBid_books`, `ids_consistent` with a deletion, the reserve records): every step of `opsC`
+is accepted; afterwards the borrow, its id and its locked vault are gone, the lend keeps 40 (principal and availability), the lent and
+borrowed totals are 40 / 0, one cToken of B is minted into `totalInterestAccumulated` (⌊2.5 − 1.5⌋), the reserve has received the
+penalty 1 and the whole token of its interest share 1 — recorded as such, both halves ⌊1/2⌋ + ⌊1/2⌋ = 0 — and holds 2 B -/
+example :
+    allAccepted cfgP (init cfgP bankP pricesH) opsC = true ∧
+    ((run cfgP (init cfgP bankP pricesH) opsC).stats.map fun st => (st.asset, st.totalLend, st.totalBorrowed, st.totalInterest)) = [(1, 40, 0, 0), (2, 0, 0, 1)] ∧
+    ((run cfgP (init cfgP bankP pricesH) opsC).stats.map fun st => (st.lendIds, st.borrowIds)) = [([1], ([] : List Nat)), ([], [])] ∧
+    ((run cfgP (init cfgP bankP pricesH) opsC).lends.map fun l => (l.amountIn, l.avail)) = [(40, 40)] ∧
+    (run cfgP (init cfgP bankP pricesH) opsC).borrows = [] ∧ (run cfgP (init cfgP bankP pricesH) opsC).locked = [] ∧
+    ((run cfgP (init cfgP bankP pricesH) opsC).resv.map fun r => (r.asset, r.reserve, r.buyback, r.inPenalty, r.inRepay)) = [(2, 0, 0, 1, 1)] ∧
+    (run cfgP (init cfgP bankP pricesH) opsC).bank.get 99 2 = 2 := by
+  decide
+
+/-! ## The reserve ledger: reserve module balance vs the book-keeping records -/
+
+/-- no message of the history is signed by the reserve module account (module accounts hold no key), and the history has no run of the
+x/lend block hook (`beginBlock`: it sweeps a deleted pool's funds into the reserve with no flow record — `reserve_ledger_poolsweep_counterexample`) -/
+def SignersOk (cfg : Cfg) (ops : List Op) : Prop := ∀ op ∈ ops, op.signer ≠ some cfg.reserveAcct ∧ op.isBeginBlock = false
+instance (cfg : Cfg) (ops : List Op) : Decidable (SignersOk cfg ops) := by unfold SignersOk; infer_instance
+
+theorem init_own (cfg : Cfg) (bank : Bank) (prices : List (Nat × Nat)) : Own cfg (init cfg bank prices) :=
+  ⟨(fun l hl => nomatch hl), (fun k hk => nomatch hk), (fun b hb => nomatch hb)⟩
+
+theorem run_ledger {cfg : Cfg} (ok : CfgOk cfg) {bank0 : Bank} (ops : List Op) {s : State} (hs : SignersOk cfg ops) (o : Own cfg s)
+    (l : ResLedger cfg bank0 s) : ResLedger cfg bank0 (run cfg s ops) ∧ Own cfg (run cfg s ops) := by
+  induction ops generalizing s with
+  | nil => exact ⟨l, o⟩
+  | cons op ops ih =>
+    have hop := hs op (by simp)
+    have hrest : SignersOk cfg ops := fun o ho => hs o (by simp [ho])
+    show ResLedger cfg bank0 (run cfg (apply cfg s op) ops) ∧ Own cfg (run cfg (apply cfg s op) ops)
+    unfold apply
+    split
+    · rename_i s' hstep
+      exact ih hrest (step_own hop.1 hstep o) (resLedger_step l (step_bal ok hop.1 hop.2 hstep o))
+    · exact ih hrest o l
+
+/-- **Reserve ledger** — for every configuration whose module accounts are distinct accounts, every genesis bank and prices, and every
+history (user messages not signed by the reserve account, hand-overs, bids, auction closes): for every asset the balance of the
+reserve module account is its genesis balance plus the inflows the records name (`FundReserveBal` entries, `AmountInFromLiqPenalty`,
+`AmountInFromRepayments`) minus the outflows they name (`AmountOutFromReserveToLenders`, `AmountOutFromReserveForAuction`). -/
+theorem reserve_ledger (cfg : Cfg) (ok : CfgOk cfg) (bank : Bank) (prices : List (Nat × Nat)) (ops : List Op) (hs : SignersOk cfg ops) :
+    ResLedger cfg bank (run cfg (init cfg bank prices) ops) :=
+  (run_ledger ok ops hs (init_own cfg bank prices) (fun a => by simp [init, getResv, Resv.flow])).1
+
+/-- **One reserve transfer, on the records**: `UpdateReserveBalances` moves BOTH halves (`ReserveAmount`, `BuybackAmount`) by `⌊x/2⌋`
+while the bank moves `x`: the halves stay equal, and after an inflow `x` their sum lags the coins by `x mod 2`. -/
+theorem reserve_halves_step (r : Resv) (x : Int) (inc : Bool) (h : r.reserve = r.buyback) (hx : 0 ≤ x) :
+    (r.halves x inc).reserve = (r.halves x inc).buyback ∧ (r.halves x inc).flow = r.flow ∧
+      ((r.halves x true).reserve + (r.halves x true).buyback = r.reserve + r.buyback + x - x % 2) := by
+  refine ⟨halves_eq r x inc h, halves_flow r x inc, ?_⟩
+  simp only [Resv.halves, if_true]
+  rw [Int.tdiv_eq_ediv_of_nonneg hx]
+  omega
+
+/-- **The halves are no ledger**: two inflows of 1 and one outflow of 2 leave `ReserveAmount = BuybackAmount = −1` with an empty
+account — the records round every transfer separately (`⌊1/2⌋ + ⌊1/2⌋ − ⌊2/2⌋`). -/
+theorem reserve_halves_drift_counterexample :
+    ((({ asset := 1 } : Resv).halves 1 true).halves 1 true).halves 2 false = { asset := 1, reserve := -1, buyback := -1 } := by decide
+
+/-- non-vacuity (`reserve_ledger`): `cfgP` has distinct module accounts, the history `opsC` (with the auction close paying penalty and
+interest share into the reserve) is signed by users only, and it does move the reserve: 2 B in, recorded as 1 + 1 -/
+example : CfgOk cfgP ∧ SignersOk cfgP opsC ∧
+    (run cfgP (init cfgP bankP pricesH) opsC).bank.get cfgP.reserveAcct 2 = 2 ∧
+    (getResv (run cfgP (init cfgP bankP pricesH) opsC).resv 2).flow = 2 := by
+  refine ⟨⟨by decide, by decide⟩, by decide, by decide, by decide⟩
+
+/-! ## The block hook of x/lend: pool deletion -/
+
+theorem sweepPool_delPools {cfg : Cfg} {s s' : State} {p q : Nat} (h : sweepPool cfg s p = .ok s') (hq : s.delPools.contains q = true) :
+    s'.delPools.contains q = true := by
+  unfold sweepPool at h
+  invert h
+  · simp only [List.contains_cons]; rw [hq]; simp
+  · exact hq
+
+theorem sweepPools_dead {cfg : Cfg} (ps : List Nat) {s : State} {p : Nat} (hp : p ∈ ps) (hd : s.delPools.contains p = true) :
+    (sweepPools cfg s ps).toBool = false := by
+  induction ps generalizing s with
+  | nil => cases hp
+  | cons q ps ih =>
+    simp only [sweepPools, bind, Except.bind]
+    cases hs : sweepPool cfg s q with
+    | error e => rfl
+    | ok s1 =>
+      rcases List.mem_cons.mp hp with rfl | hp'
+      · exfalso
+        unfold sweepPool at hs
+        invert hs
+        all_goals exact bnot_contra ‹(!s.delPools.contains p) = true› hd
+      · exact ih hp' (sweepPool_delPools hs hd)
+
+/-- **The hook is dead after its first pool deletion**: the deleted pool's entry stays pending (the flag is set on a copy of the
+entry, pair.go:655-657), the next run reads the deleted pool as a zero record and panics on the empty denomination — so the whole
+hook, with every other pending entry, is rolled back, at every later run. -/
+theorem beginBlock_dead_after_deletion (cfg : Cfg) (s : State) (p : Nat) (hp : p ∈ s.depPending) (hd : s.delPools.contains p = true) :
+    (beginBlock cfg s).toBool = false := sweepPools_dead s.depPending hp hd
+
+/-- a pending entry stays pending and a deleted pool stays deleted, whatever the hook does -/
+theorem beginBlock_keeps_pending {cfg : Cfg} {s s' : State} (h : beginBlock cfg s = .ok s') : s'.depPending = s.depPending := by
+  have key : ∀ (ps : List Nat) (s s' : State), sweepPools cfg s ps = .ok s' → s'.depPending = s.depPending := by
+    intro ps
+    induction ps with
+    | nil => intro s s' h; unfold sweepPools at h; cases h; rfl
+    | cons q ps ih =>
+      intro s s' h
+      simp only [sweepPools] at h
+      invert h
+      rename_i s1 hs
+      have h1 : s1.depPending = s.depPending := by
+        unfold sweepPool at hs
+        invert hs <;> rfl
+      rw [ih _ _ ‹sweepPools cfg _ ps = .ok s'›, h1]
+  exact key _ _ _ h
+
+/-- two pools; pool 2 {A = 2 (main), B = 3, C = 4}; user 1 lends 50 A in pool 2 and closes; the pool holds 7 B from a funding message -/
+def cfgD : Cfg :=
+  { assets := [⟨1, 1⟩, ⟨2, 1⟩, ⟨3, 1⟩, ⟨4, 1⟩, ⟨5, 1⟩, ⟨6, 1⟩, ⟨7, 1⟩],
+    rates := [⟨2, 500000000000000000, 0, 5, false, false, 0, 0⟩, ⟨3, 500000000000000000, 0, 6, false, false, 0, 0⟩, ⟨4, 500000000000000000, 0, 7, false, false, 0, 0⟩],
+    pools := [⟨2, 102, [⟨2, 1, 1000000000000000000000000000000000000⟩, ⟨3, 2, 1000000000000000000000000000000000000⟩, ⟨4, 3, 1000000000000000000000000000000000000⟩]⟩],
+    apps := [(1, true)] }
+def bankD : Bank := [((1, 2), 100), ((1, 3), 100)]
+def pricesD : List (Nat × Nat) := [(2, 1000000), (3, 1000000), (4, 1000000)]
+def opsD : List Op := [.lend 1 2 2 50 2 1 0, .fundModule 1 2 3 3 7, .closeLend 1 1 0, .setDepreciated 2 false, .beginBlock]
+
+/-- **Counterexample (pool sweep)**: every step is accepted; the hook moves the 7 B the pool still holds into the reserve — both record
+halves move by ⌊7/2⌋ = 3 — but no flow record names them: the reserve holds 7 B while genesis + recorded net inflow is 0; the pool is
+deleted, its entry is still pending, and the next run of the hook fails. -/
+theorem reserve_ledger_poolsweep_counterexample :
+    allAccepted cfgD (init cfgD bankD pricesD) opsD = true ∧
+    (run cfgD (init cfgD bankD pricesD) opsD).bank.get cfgD.reserveAcct 3 = 7 ∧
+    (getResv (run cfgD (init cfgD bankD pricesD) opsD).resv 3).flow = 0 ∧
+    (getResv (run cfgD (init cfgD bankD pricesD) opsD).resv 3).reserve = 3 ∧
+    ¬ resLedgerOn cfgD bankD (run cfgD (init cfgD bankD pricesD) opsD) [3] = true ∧
+    (run cfgD (init cfgD bankD pricesD) opsD).delPools = [2] ∧ (run cfgD (init cfgD bankD pricesD) opsD).depPending = [2] ∧
+    (step cfgD (run cfgD (init cfgD bankD pricesD) opsD) .beginBlock).toBool = false := by decide
+
+/-! ## The store migration 2 → 3 of x/lend, run in the middle of a history -/
+
+/-- **The books survive the migration** — for every configuration, genesis, history before and history after the migration (the
+messages after it run under the migrated configuration): the borrowed totals (variable and stable) and the id lists are right at the
+end; so is the lent total when every hand-over of both parts is clean. The migration touches no position, total, balance or record. -/
+theorem books_across_migration (cfg : Cfg) (bank : Bank) (prices : List (Nat × Nat)) (ops1 ops2 : List Op) :
+    let s1 := run cfg (init cfg bank prices) ops1
+    let s2 := run (migrateCfg cfg) s1 ops2
+    TotalBorrowedEq (migrateCfg cfg) s2 ∧ TotalStableEq (migrateCfg cfg) s2 ∧ IdsOk (migrateCfg cfg) s2 ∧
+      (CleanRun cfg (init cfg bank prices) ops1 → CleanRun (migrateCfg cfg) s1 ops2 → TotalLendEq s2) := by
+  intro s1 s2
+  have c1 : CoreS cfg s1 := run_core ops1 (init_core cfg bank prices)
+  have i1 : IdsS cfg s1 := run_ids ops1 (init_core cfg bank prices) (init_ids cfg bank prices)
+  have c2 : CoreS (migrateCfg cfg) s2 := run_core ops2 (migrate_core c1)
+  have i2 : IdsS (migrateCfg cfg) s2 := run_ids ops2 (migrate_core c1) (migrate_ids i1)
+  refine ⟨fun st hst => c2.tbs false st hst, fun st hst => c2.tbs true st hst, i2.ok, fun h1 h2 => ?_⟩
+  exact run_totalLend ops2 (migrate_core c1) (run_totalLend ops1 (init_core cfg bank prices) (init_totalLend cfg bank prices) h1) h2
+
+/-- **The reserve ledger survives the migration** (same side conditions as `reserve_ledger` for both parts) -/
+theorem reserve_ledger_across_migration (cfg : Cfg) (ok : CfgOk cfg) (bank : Bank) (prices : List (Nat × Nat)) (ops1 ops2 : List Op)
+    (h1 : SignersOk cfg ops1) (h2 : SignersOk (migrateCfg cfg) ops2) :
+    ResLedger (migrateCfg cfg) bank (run (migrateCfg cfg) (run cfg (init cfg bank prices) ops1) ops2) := by
+  obtain ⟨l1, o1⟩ := run_ledger (bank0 := bank) ok ops1 h1 (init_own cfg bank prices) (fun a => by simp [init, getResv, Resv.flow])
+  exact (run_ledger (migrate_cfgOk ok) ops2 h2 (migrate_own o1) (migrate_ledger l1)).1
+
+theorem mem_migratePairs {c : Bool} {ps : List PairCfg} {p : PairCfg} (h : p ∈ migratePairs c ps) : p.eMode = false := by
+  induction ps generalizing c with
+  | nil => cases h
+  | cons q ps ih =>
+    simp only [migratePairs, List.mem_cons] at h
+    rcases h with rfl | h
+    · rfl
+    · exact ih h
+
+theorem mem_migrateRates {c : Bool} {rs : List RatesCfg} {r : RatesCfg} (h : r ∈ migrateRates c rs) :
+    r.isolated = false ∧ r.eLtv = 0 ∧ r.eLiqPenalty = 0 := by
+  induction rs generalizing c with
+  | nil => cases h
+  | cons q rs ih =>
+    simp only [migrateRates, List.mem_cons] at h
+    rcases h with rfl | h
+    · exact ⟨rfl, rfl, rfl⟩
+    · exact ih h
+
+/-- **What the migration switches off**: afterwards no pair is an e-mode pair, no asset is isolated collateral, every e-LTV and
+e-penalty is zero — a borrow opened above the normal LTV on an e-mode pair is over its limit from that block on. -/
+theorem migration_switches_off (cfg : Cfg) :
+    (∀ p ∈ (migrateCfg cfg).pairs, p.eMode = false) ∧ (∀ r ∈ (migrateCfg cfg).rates, r.isolated = false ∧ r.eLtv = 0 ∧ r.eLiqPenalty = 0) :=
+  ⟨fun _ h => mem_migratePairs h, fun _ h => mem_migrateRates h⟩
+
+/-- **Counterexample (migration leak)**: two asset-rates records, the first with stable borrowing enabled, the second without; two
+pairs, the first cross-pool, the second same-pool. After `Migrate2to3` the second asset has stable borrowing ENABLED and the second
+pair is CROSS-POOL: the loop decodes every record into one variable that `Unmarshal` does not reset, so a `false` (absent on the wire)
+keeps the previous record's `true` (migrate.go:152-164, 189-205). Written record by record (`migrateCfgSpec`) both stay `false`. -/
+theorem migration_leak_counterexample :
+    let cfg : Cfg := { rates := [⟨3, 800000000000000000, 0, 7, false, true, 0, 0⟩, ⟨4, 600000000000000000, 0, 8, false, false, 0, 0⟩],
+                       pairs := [⟨1, 3, 4, true, 2, false⟩, ⟨2, 4, 3, false, 2, false⟩] }
+    ((migrateCfg cfg).rates.map fun r => (r.asset, r.stableOk)) = [(3, true), (4, true)] ∧
+    ((migrateCfgSpec cfg).rates.map fun r => (r.asset, r.stableOk)) = [(3, true), (4, false)] ∧
+    ((migrateCfg cfg).pairs.map fun p => (p.id, p.inter)) = [(1, true), (2, true)] ∧
+    ((migrateCfgSpec cfg).pairs.map fun p => (p.id, p.inter)) = [(1, true), (2, false)] := by decide
+
+/-- non-vacuity (`books_across_migration`): a borrow on an e-mode pair before the migration, a repayment after it -/
+example :
+    let cfg : Cfg := { cfgH with pairs := [⟨1, 1, 2, false, 1, true⟩],
+                                 rates := [⟨1, 500000000000000000, 900000000000000000, 3, false, false, 0, 0⟩, ⟨2, 500000000000000000, 0, 4, false, false, 0, 0⟩] }
+    allAccepted cfg (init cfg bankH pricesH) [.lend 1 1 1 100 1 1 0, .borrow 1 1 1 false 3 60 2 50 .err .err] = true ∧
+    allAccepted (migrateCfg cfg) (run cfg (init cfg bankH pricesH) [.lend 1 1 1 100 1 1 0, .borrow 1 1 1 false 3 60 2 50 .err .err])
+      [.repay 1 1 2 5 (.val 0 0), .draw 1 1 2 1 (.val 0 0)] = false ∧
+    (step (migrateCfg cfg) (run cfg (init cfg bankH pricesH) [.lend 1 1 1 100 1 1 0, .borrow 1 1 1 false 3 60 2 50 .err .err]) (.repay 1 1 2 5 (.val 0 0))).toBool = true := by
   decide
 
 end Comdex.C08
